@@ -55,7 +55,7 @@ Theorem C14_owner_proceeds :
 Proof. exact owner_proceeds_lemma. Qed.
 Print Assumptions C14_owner_proceeds.
 
-(** the second [with] item is needed: the one-item variant admits a schedule (the lock
+(** the second [with] item is needed: the one-item variant allows a schedule (the lock
     is swapped while a thread waits on the old one) with two threads in a body.  This is
     also the witness that the model can exhibit the race at all. *)
 Theorem C14_second_acquire_needed_refuted :
